@@ -272,7 +272,10 @@ Theorem C12_map_add_indefinite :
           end).
 Proof. exact map_add_indefinite. Qed.
 Print Assumptions C12_map_add_indefinite.
-(* chunked strings: appends the chunk, doubling the chunk array when full; refused growth changes nothing *)
+(* chunked strings: appends the chunk, doubling the chunk array when full; refused growth changes nothing.
+   [chunk_ok text nx] (HCont_proofs): for a byte string (text = false) the chunk is a definite byte string - the
+   two CBOR_ASSERTs of cbor_bytestring_add_chunk on its second argument, which the model renders as FAssert 20 / 21
+   (AUDIT.md D3); for a text string it is True (cbor_string_add_chunk asserts nothing about the chunk) *)
 Theorem C12_add_chunk_spec :
   forall (refuse : N -> N -> bool) (a x : addr) 
            (w : world) (rc : N) (text : bool) (hdr : addr) 
@@ -284,6 +287,7 @@ Theorem C12_add_chunk_spec :
          block_inv w arr cap ->
          arr <> Some hdr ->
          heap w x = Some (CItem rcx nx) ->
+         chunk_ok text nx ->
          a <> x ->
          (cap < 2 ^ 64)%N ->
          (len chunks <> cap ->
@@ -431,7 +435,7 @@ Theorem C12_code_add_chunk_followed :
   heap w a = Some (CItem rc (NChunked text hdr arr cap chunks)) ->
   heap w hdr = Some (CData hsz) ->
   block_inv w arr cap -> arr <> Some hdr ->
-  heap w x = Some (CItem rcx nx) ->
+  heap w x = Some (CItem rcx nx) -> chunk_ok text nx ->
   a <> x ->
   cap < 2 ^ 64 -> len chunks <= cap ->
   let p := (if text then Gcbor_string_add_chunk else Gcbor_bytestring_add_chunk)
@@ -645,6 +649,27 @@ Example C12_example_chunk_applies :
   exists s outs w, run_hist exC_refuse 8 exC_pre s0 [] world0 = Ret (s, outs) w /\
     cseq_ok exC_refuse 8 1 exC_ops s w (mkachunks 0 []).
 Proof. exact exC_sequence. Qed.
+(* the assertions on the chunk (AUDIT.md D3 / D3b; stream audit-asserts compares these calls with the
+   assert-enabled build): cbor_bytestring_add_chunk aborts on a chunk that is not a byte string (FAssert 20:
+   an integer, a text string) or not definite (FAssert 21); cbor_string_add_chunk takes anything and the next
+   cbor_serialize_string aborts on the chunk (FAssert 73); a definite byte string passes and is serialized.
+   None of the four faulting histories is legal: [legal (OAddChunk ..)] asks for a definite string of the
+   same kind, so C04_step ("a legal step does not fault") is not contradicted. *)
+Example C12_example_chunk_asserts :
+  run_hist HRef_proofs.never 8 [OBuildInt false PStream.I8 1; ONewIndefString false; OAddChunk 1 0]%nat s0 [] world0
+    = Fault (FAssert 20) /\
+  run_hist HRef_proofs.never 8 [OBuildString true [97%N]; ONewIndefString false; OAddChunk 1 0]%nat s0 [] world0
+    = Fault (FAssert 20) /\
+  run_hist HRef_proofs.never 8 [ONewIndefString false; ONewIndefString false; OAddChunk 1 0]%nat s0 [] world0
+    = Fault (FAssert 21) /\
+  run_hist HRef_proofs.never 8 [OBuildString false [97%N]; ONewIndefString true; OAddChunk 1 0; OSerialize 1 8]%nat s0 [] world0
+    = Fault (FAssert 73) /\
+  match run_hist HRef_proofs.never 8 [OBuildString false [97%N]; ONewIndefString false; OAddChunk 1 0; OSerialize 1 8]%nat
+          s0 [] world0 with
+  | Ret (_, outs) _ => outs = [OutHandle true; OutHandle true; OutBool true; OutBytes 4 [95%N; 65%N; 97%N; 255%N]]
+  | Fault _ => False
+  end.
+Proof. vm_compute. repeat split. Qed.
 
 (* ---- OBSERVABLE CONTENTS (theories/HAbs_proofs.v): the abstraction [abs_of] (heap item -> P tree:
    what serialization and every reader sees) after each mutating call of a rule-following client.
